@@ -553,8 +553,12 @@ impl BorshDeserialize for NaturalP {
     fn deserialize(bytes: &mut &[u8]) -> std::io::Result<Self> {
         let bytes = <Vec<u16>>::deserialize(bytes)?;
 
+        // digits arrive as u16 from untrusted input: a digit >= 256 is not a
+        // base-256 digit and must be an error, not a panic
         let num = Natural::from_digits_desc(&256u16, bytes.into_iter())
-            .expect("impossible");
+            .ok_or_else(|| {
+                Error::new(ErrorKind::InvalidData, "plaintext digit out of range")
+            })?;
         Ok(NaturalP(num))
     }
 }
